@@ -42,7 +42,7 @@ m = {
  "version": 1,
  "setup_cmd": "./check --setup",
  "hooks": {"guard": "CMI_VERIF", "enable": "harnesses and the scratch cmake build under /verif/build/repo compile /repo/src with -DCMI_VERIF",
-           "baseline_off_cmd": "./check --baseline", "source_commits": ["c91ddc4", "fc385fc", "39e3b0d", "e1d8e8b", "8e045df", "92c395a"], "add_only": True},
+           "baseline_off_cmd": "./check --baseline", "source_commits": ["c91ddc4", "fc385fc", "39e3b0d", "e1d8e8b", "8e045df", "92c395a", "b39714b"], "add_only": True},
  "engines": [
    {"name": "coq", "path": "coq/", "serves_properties": sorted(CLAIMED), "kind_free_text": "Coq 8.16.1 development: Cxx/<id>_Defs.v executable models, Cxx/<id>_Proofs.v, Props/Properties_<id>.v statements + Print Assumptions, Extract/ extraction"},
    {"name": "check", "path": "check", "serves_properties": sorted(CLAIMED), "kind_free_text": "driver: regenerate -> full .vo build -> extraction -> C++ harness against /repo/src -> differential correspondence -> search-on-break -> evidence"},
